@@ -6,8 +6,8 @@ from common import Result
 
 INFO = dict(
     level="proof",
-    rule="random probe graphs whose step functions report (node, seq) to the host through an ordered jax.debug.callback; threaded runtime with jit on/off, run() and reset()/step() with every second "
-    "supervisor step overridden by the user; compiled runtime (MCS and GENERATIONAL = scan path) driven by run(), a jitted rollout, reset()/step() with overrides and step() straight after init; the multiset of "
+    rule="random probe graphs (plus graphs with a node 15-18x faster than the supervisor) whose step functions report (node, seq) to the host through an ordered jax.debug.callback; threaded runtime with jit on/off, run() and reset()/step() with every second "
+    "supervisor step overridden by the user; compiled runtime (MCS and GENERATIONAL = scan path) driven by run(), a jitted rollout, reset()/step() with overrides, step() straight after init, a late start, a rewound graph state and the whole horizon on the shorter of two recorded episodes; the multiset of "
     "reported executions must equal the recorded ticks (threaded) / the run-masked slots of Graph.timings inside the horizon (compiled), zero for masked slots, overridden supervisor steps and the supervisor at step 0. "
     "Non-trivial: the compiled partitioning contains >=1 masked slot and the episode contains >=1 overridden step",
     trusted=[
@@ -18,14 +18,14 @@ INFO = dict(
 )
 
 
-def expected_compiled(tim, sup, partitions, sup_partitions):
+def expected_compiled(tim, sup, partitions, sup_partitions, e=0):
     exp = Counter()
     masked = 0
     for sname, s in tim.items():
         for p in (sup_partitions if s["kind"] == sup else partitions):
-            if p < len(s["run"][0]):
-                if s["run"][0][p]:
-                    exp[(s["kind"], s["seq"][0][p])] += 1
+            if p < len(s["run"][e]):
+                if s["run"][e][p]:
+                    exp[(s["kind"], s["seq"][e][p])] += 1
                 else:
                     masked += 1
     return exp, masked
@@ -36,6 +36,8 @@ def run(ctx):
     n = ctx.n(5, 8 if ctx.search else 30)
     seeds = [ctx.rng.randrange(1 << 30) for _ in range(n)]
     tasks = [dict(fn="tasks_rt:calls_case", args=dict(seed=s), timeout=900) for s in seeds]
+    # a node 15-18x faster than the supervisor: many slots of one kind per partition, the later ones masked in some partitions
+    tasks += [dict(fn="tasks_rt:calls_case", args=dict(seed=ctx.rng.randrange(1 << 30), spec_kind="high_ratio", nsteps=5), timeout=900) for _ in range(ctx.n(2, 6))]
     for t, r in ac.pool_cases(tasks, res, timeout=900):
         spec = r["spec"]
         sup = spec["supervisor"]
@@ -58,6 +60,20 @@ def run(ctx):
                     break
         for c in r["compiled"]:
             tim, nrun = c["timings"], c["nrun"]
+            cases = []
+            if c.get("calls_short") is not None:
+                h = c["horizon"]
+                cases.append((f"run over the whole horizon ({h} steps) on the shorter recorded episode", c["calls_short"], range(h), range(h), 1))
+            for label, calls, parts, sparts, e_ in cases:
+                res.evaluations += 1
+                res.count("ragged_episode_runs")
+                exp, masked = expected_compiled(tim, sup, parts, sparts, e=e_)
+                got = Counter((n_, s) for n_, ss in calls.items() for s in ss)
+                if got != exp:
+                    extra = sorted((got - exp).items())[:6]
+                    missing = sorted((exp - got).items())[:6]
+                    res.fail("compiled_calls", f"seed={seed} compiled runtime ({c['mode']}, driven by {label}): step function executions differ from the run-masked slots of the schedule: "
+                             f"extra {extra}, missing {missing}", dict(task=t, spec=spec, mode=c["mode"], api=label))
             for label, calls, parts, sparts in (
                 ("run", c["calls_run"], range(nrun), range(nrun)),
                 ("jit(rollout)", c["calls_rollout"], range(nrun), range(nrun)),
